@@ -56,6 +56,15 @@ func genEndPlan(seed uint64, thorough bool) *Plan {
 				clock = append(clock, Item{Op: "adv", N: int64(1e6 * float64(time.Second)), Tag: "long"}, Item{Op: "await-idle"})
 				// end this block with a push so that the next round can start
 				clock = append(clock, cmdItem("RPUSH", "q", "x"+strconv.Itoa(r)), Item{Op: "await-idle"})
+			} else if d >= 50*time.Millisecond && g.chance(2) {
+				// half way through, the waiter is woken for an element somebody
+				// else takes (push and pop in one EXEC, or a push that a
+				// competitor pops first): it goes back to waiting, and the
+				// deadline stays where it was
+				clock = append(clock, Item{Op: "adv", N: int64(d / 2), Tag: "half"}, Item{Op: "await-idle"})
+				clock = append(clock, cmdItem("MULTI"), cmdItem("RPUSH", "q", "stolen"+strconv.Itoa(r)), cmdItem(g.pick("LPOP", "RPOP"), "q"), cmdItem("EXEC"), Item{Op: "await-idle"})
+				clock = append(clock, Item{Op: "adv", N: int64(d - d/2 - delta), Tag: "before"}, Item{Op: "await-idle"},
+					Item{Op: "adv", N: int64(2 * delta), Tag: "after"}, Item{Op: "await-idle"})
 			} else {
 				clock = append(clock, Item{Op: "adv", N: int64(d - delta), Tag: "before"}, Item{Op: "await-idle"},
 					Item{Op: "adv", N: int64(2 * delta), Tag: "after"}, Item{Op: "await-idle"})
@@ -297,6 +306,23 @@ func (c *endChecker) Final(w *World) *Violation {
 				sure = b
 			}
 		}
+		// An UNBLOCK that answered 1 while the target sat in its blocking
+		// select, with nothing that could have woken it in between, must end
+		// that command - whatever else (further unblocks, timers) happens later.
+		if u.Reply.I == 1 && (w.stats.EndReason == "done" || w.stats.EndReason == "quiescent") {
+			for _, b := range w.history {
+				if b.Client != target || len(b.Item.Args) == 0 || !isBlockingCmd(string(b.Item.Args[0])) {
+					continue
+				}
+				if !b.wasBlocked || b.BlockedStep >= u.Invoke || b.Return >= 0 || b.Lost || c.targetGone(w, target) {
+					continue
+				}
+				if c.wakerBetween(w, b, b.BlockedStep, u.Return) {
+					continue
+				}
+				return bad("unblock-no-effect", "client %d sat in the blocking select of %s since step %d and nothing touched its keys; CLIENT UNBLOCK ran [%d,%d] and answered 1, but the command never completed", target, fmtArgs(strs(b.Item.Args)), b.BlockedStep, u.Invoke, u.Return)
+			}
+		}
 		switch {
 		case overlapping == 0:
 			// open known finding KF-unblock-reply-not-blocked: this clause is only
@@ -420,6 +446,11 @@ func (c *endChecker) noOtherEnder(w *World, b, u *Op) bool {
 		if o == u || o == b || len(o.Item.Args) == 0 {
 			continue
 		}
+		// what was over before b was sent, or was sent after b had been
+		// answered, cannot have ended b
+		if (o.Return >= 0 && o.Return < b.Invoke) || (b.Return >= 0 && o.Invoke > b.Return) {
+			continue
+		}
 		switch strings.ToLower(string(o.Item.Args[0])) {
 		case "lpush", "rpush", "lpushx", "rpushx", "lmove", "rpoplpush", "rename", "renamenx", "copy", "sort", "exec", "client":
 			if strings.EqualFold(string(o.Item.Args[0]), "client") && len(o.Item.Args) > 1 {
@@ -437,6 +468,37 @@ func (c *endChecker) noOtherEnder(w *World, b, u *Op) bool {
 		}
 	}
 	return true
+}
+
+func (c *endChecker) targetGone(w *World, target int) bool {
+	for _, cl := range w.clients {
+		if cl.idx == target && (cl.cliClosed || cl.eof) {
+			return true
+		}
+	}
+	return false
+}
+
+// wakerBetween: did a command that can wake or end a blocked client (pushes,
+// moves, key-creating commands, EXEC, CLIENT KILL) overlap steps [from, to]?
+func (c *endChecker) wakerBetween(w *World, b *Op, from, to int64) bool {
+	for _, o := range w.history {
+		if o == b || len(o.Item.Args) == 0 {
+			continue
+		}
+		if (o.Return >= 0 && o.Return < from) || o.Invoke > to {
+			continue
+		}
+		switch strings.ToLower(string(o.Item.Args[0])) {
+		case "lpush", "rpush", "lpushx", "rpushx", "lmove", "rpoplpush", "blmove", "brpoplpush", "rename", "renamenx", "copy", "sort", "exec", "linsert":
+			return true
+		case "client":
+			if len(o.Item.Args) > 1 && strings.EqualFold(string(o.Item.Args[1]), "kill") {
+				return true
+			}
+		}
+	}
+	return false
 }
 
 // sentinelPlans: fixed plans that reach an open known finding directly.
